@@ -8,6 +8,7 @@ set -u
 VERIF=/verif
 Q=$VERIF/harness/qshuttle
 export CARGO_NET_OFFLINE=true
+unset CARGO_TARGET_DIR
 export CARGO_TERM_COLOR=never
 ID=$1
 shift
